@@ -389,3 +389,56 @@ Theorem uncache_harmless_also_after_close : forall w s t th,
     /\ NoDup (C16_ReceiverClose.lru s').
 Proof. exact uncache_harmless_lemma. Qed.
 Print Assumptions uncache_harmless_also_after_close.
+
+(* ------------------------------------------------------------------ *)
+(* Algebraic laws of the duplicate filter (proofs in Proofs.C09_LRU_Laws).  They hold for
+   EVERY filter content and capacity - no reachability, NoDup or capacity premise unless one
+   is written - and pin the parts of stringLRU.update / remove that lru_refines_spec leaves
+   to the recency list: what a hit, a miss and an un-cache do NOT change. *)
+From Proofs Require Import C09_LRU_Laws.
+From Coq Require Import Permutation.
+
+(* an immediate duplicate is a hit and leaves the filter exactly as it was *)
+Theorem lru_update_twice : forall cap c l,
+  let l1 := snd (lru_update cap c l) in
+  lru_update cap c l1 = (true, l1).
+Proof. exact lru_update_twice_lemma. Qed.
+Print Assumptions lru_update_twice.
+
+(* a hit only reorders: same keys, same size, nothing evicted *)
+Theorem lru_hit_permutes : forall cap c l,
+  fst (lru_update cap c l) = true ->
+  Permutation (snd (lru_update cap c l)) l /\ length (snd (lru_update cap c l)) = length l.
+Proof. exact lru_hit_permutes_lemma. Qed.
+Print Assumptions lru_hit_permutes.
+
+(* a miss on a full filter evicts exactly the least recently used key and keeps the others in
+   order; a miss with room evicts nothing *)
+Theorem lru_miss_evicts_last : forall cap c l,
+  fst (lru_update cap c l) = false ->
+  (length l = cap -> snd (lru_update cap c l) = c :: removelast l) /\
+  (length l <> cap -> snd (lru_update cap c l) = c :: l).
+Proof. exact lru_miss_evicts_last_lemma. Qed.
+Print Assumptions lru_miss_evicts_last.
+
+(* an update never introduces a key other than the one announced *)
+Theorem lru_update_adds_only : forall cap c l x,
+  In x (snd (lru_update cap c l)) -> x = c \/ In x l.
+Proof. exact lru_update_adds_only_lemma. Qed.
+Print Assumptions lru_update_adds_only.
+
+(* un-caching one CID never changes whether another CID is a duplicate *)
+Theorem lru_remove_other : forall c d l, c <> d -> memN d (lru_remove c l) = memN d l.
+Proof. exact lru_remove_other_lemma. Qed.
+Print Assumptions lru_remove_other.
+
+(* un-caching twice is un-caching once *)
+Theorem lru_remove_idem : forall c l, NoDup l -> lru_remove c (lru_remove c l) = lru_remove c l.
+Proof. exact lru_remove_idem_lemma. Qed.
+Print Assumptions lru_remove_idem.
+
+(* the premises are met by a concrete full filter: a hit, then a miss that evicts the oldest *)
+Example lru_laws_nonvacuous :
+  fst (lru_update 3 2%N [1;2;3]%N) = true /\ snd (lru_update 3 2%N [1;2;3]%N) = [2;1;3]%N /\
+  fst (lru_update 3 9%N [2;1;3]%N) = false /\ snd (lru_update 3 9%N [2;1;3]%N) = [9;2;1]%N.
+Proof. vm_compute. repeat split. Qed.
